@@ -648,6 +648,26 @@ def m_send(eng, callee, args):
     return Ok(Tuple([])) if ok else Err(Struct("SendError", ["0"], [args[1]]))
 
 
+@model(r"^std::sync::mpsc::Receiver::<.*>::recv_timeout$|^std::sync::mpsc::Receiver::<.*>::try_recv$",
+       "Receiver::recv_timeout: Ok(next queued message) if one has arrived by now (arrival times are the solver's choice, "
+       "in send order), else Err(Timeout)")
+def m_recv_timeout(eng, callee, args):
+    rx = deref(args[0])
+    ch = rx.fields[0]
+    now = getattr(eng.ctx, "sleeps", 0)
+    q = getattr(ch, "queue", None)
+    if q is None:
+        q = ch.queue = []
+    if q and q[0][0] <= now:
+        return Ok(q.pop(0)[1])
+    return Err(Enum("RecvTimeoutError", "Timeout", []))
+
+
+@model(r"^<ProgressStyle as Clone>::clone$|^<ProgressBar as Clone>::clone$|^<MultiProgress as Clone>::clone$", "indicatif handles: opaque clone")
+def m_indicatif_clone(eng, callee, args):
+    return Opaque("indicatif")
+
+
 @model(r"^must_use::<", "must_use")
 def m_must_use(eng, callee, args):
     return args[0]
@@ -735,3 +755,132 @@ def m_total_cmp(eng, callee, args):
 def mirsym_nan_or(a, b):
     import mirsym
     return mirsym.nan_or(a, b)
+
+
+# --- further burn API (not used by the pinned tree; present so that changed code stays decidable) -------------
+@model(r" as (burn::tensor::)?ElementConversion>::elem::<", "ElementConversion::elem: the same value in another element type")
+def m_elem(eng, callee, args):
+    v = deref(args[0])
+    if isinstance(v, (bool, z3.BoolRef)):
+        return v
+    if re.search(r"elem::<bool>", callee):
+        return Num.of(v).ne(0)
+    return Num.of(v) if not isinstance(v, int) else (Num(v) if re.search(r"elem::<f(32|64)>", callee) else v)
+
+
+@model(NUMERIC + r"(abs)$", "element-wise abs")
+def m_t_abs(eng, callee, args):
+    return Ten(elementwise(ten(args[0]).a, lambda x: ite(x.lt(0), -x, x)))
+
+
+@model(NUMERIC + r"(sqrt)$", "element-wise sqrt (uninterpreted)")
+def m_t_sqrt(eng, callee, args):
+    return Ten(elementwise(ten(args[0]).a, lambda x: num_fn("sqrt", x)))
+
+
+@model(NUMERIC + r"(powf|powi)$", "element-wise power by a tensor (uninterpreted)")
+def m_t_powf(eng, callee, args):
+    a, b = ten(args[0]).a, ten(args[1]).a
+    out = np.empty(a.size, dtype=object)
+    for i, (x, y) in enumerate(zip(a.reshape(-1), np.broadcast_to(b, a.shape).reshape(-1))):
+        out[i] = num_fn("powf", x, y)
+    return Ten(out.reshape(a.shape))
+
+
+@model(NUMERIC + r"mean$", "mean of all elements -> shape [1]")
+def m_t_mean(eng, callee, args):
+    a = ten(args[0]).a
+    acc = Num(0)
+    for x in a.reshape(-1):
+        acc = acc + x
+    return Ten(obj_array([acc / Num(a.size)], (1,)))
+
+
+@model(NUMERIC + r"mean_dim$", "mean_dim(d): keeps the dimension with size 1")
+def m_t_mean_dim(eng, callee, args):
+    a = ten(args[0]).a
+    s = a.sum(axis=args[1], keepdims=True)
+    return Ten(elementwise(s, lambda x: x / Num(a.shape[args[1]])))
+
+
+@model(NUMERIC + r"clamp(_min|_max)?::<|" + NUMERIC + r"clamp(_min|_max)?$", "clamp (R-mode)")
+def m_t_clamp(eng, callee, args):
+    a = ten(args[0]).a
+    if "clamp_min" in callee:
+        lo, hi = scalar(args[1]), None
+    elif "clamp_max" in callee:
+        lo, hi = None, scalar(args[1])
+    else:
+        lo, hi = scalar(args[1]), scalar(args[2])
+
+    def f(x):
+        if lo is not None:
+            x = ite(x.lt(lo), lo, x)
+        if hi is not None:
+            x = ite(x.gt(hi), hi, x)
+        return x
+    return Ten(elementwise(a, f))
+
+
+@model(BASE + r"(transpose|t)$", "transpose of the last two dimensions")
+def m_t_transpose(eng, callee, args):
+    a = ten(args[0]).a
+    return Ten(np.swapaxes(a, -1, -2))
+
+
+@model(BASE + r"swap_dims$", "swap_dims")
+def m_t_swap(eng, callee, args):
+    return Ten(np.swapaxes(ten(args[0]).a, args[1], args[2]))
+
+
+@model(BASE + r"cat$|" + BASE + r"cat::<", "Tensor::cat(tensors, dim)")
+def m_t_cat(eng, callee, args):
+    v = deref(args[0])
+    ts = [ten(x).a for x in (v.items if isinstance(v, RVec) else v)]
+    try:
+        return Ten(np.concatenate(ts, axis=args[1]))
+    except ValueError:
+        raise PanicPath("cat: shapes differ off-axis")
+
+
+@model(NUMERIC + r"full::<", "Tensor::full(shape, value)")
+def m_t_full(eng, callee, args):
+    sh = shape_arg(args[0])
+    v = scalar(args[1])
+    n = int(np.prod(sh)) if sh else 1
+    return Ten(obj_array([v for _ in range(n)], sh))
+
+
+@model(NUMERIC + r"not_equal$", "element-wise != -> Bool tensor")
+def m_t_ne(eng, callee, args):
+    a, b = ten(args[0]).a, ten(args[1]).a
+    out = np.empty(a.size, dtype=object)
+    for i, (x, y) in enumerate(zip(a.reshape(-1), np.broadcast_to(b, a.shape).reshape(-1))):
+        out[i] = x.ne(y)
+    return bool_ten(out.reshape(a.shape))
+
+
+@model(NUMERIC + r"(float|int)$", "Bool/Int tensor to float tensor (true = 1)")
+def m_t_float(eng, callee, args):
+    t = ten(args[0])
+    if t.dtype == "bool":
+        return Ten(elementwise(t.a, lambda b: ite(b, Num(1), Num(0))))
+    return Ten(t.a.copy())
+
+
+@model(NUMERIC + r"(is_inf|is_finite)$", "is_inf: false / is_finite: not NaN (no infinities in N-mode)")
+def m_t_is_inf(eng, callee, args):
+    a = ten(args[0]).a
+    if callee.endswith("is_inf"):
+        return bool_ten(elementwise(a, lambda x: False))
+    return bool_ten(elementwise(a, lambda x: b_not(Num.of(x).is_nan())))
+
+
+@model(NUMERIC + r"mask_fill::<|" + NUMERIC + r"mask_fill$", "mask_fill(mask, value)")
+def m_t_mask_fill(eng, callee, args):
+    t, mask = ten(args[0]).a, ten(args[1]).a
+    v = scalar(args[2])
+    out = np.empty(t.size, dtype=object)
+    for i, (x, m) in enumerate(zip(t.reshape(-1), np.broadcast_to(mask, t.shape).reshape(-1))):
+        out[i] = ite(m, v, x)
+    return Ten(out.reshape(t.shape))
